@@ -235,12 +235,14 @@ def generate(comp, repo, outdir):
                 for lm in re.finditer(r"(?:^|[;{}])\s*(?:const\s+)?(auto|u?int\d+_t|size_t|int|unsigned|bool)\s+(\w+)\s*=\s*([^;]+);", body):
                     lty, lname, lexpr = lm.group(1), lm.group(2), lm.group(3)
                     lenv = cexpr.Env(names=names, sizes=sizes, funcs=funcs, aligns=aligns)
+                    lenv.typemods = spec.get("typemods", {})
                     last = cexpr.parse(lexpr)
                     lterm = cexpr.as_int(last, lenv)
                     if lty in cexpr.UNSIGNED_BITS:
                         lterm = "(Z.modulo %s (2 ^ %d))" % (lterm, cexpr.UNSIGNED_BITS[lty])
                     names[lname] = lterm
             env = cexpr.Env(names=names, sizes=sizes, funcs=funcs, aligns=aligns)
+            env.typemods = spec.get("typemods", {})
             ast = cexpr.parse(text)
             as_bool = t.get("type") == "bool" or (t.get("type") is None and cexpr.is_bool(ast))
             term = cexpr.as_bool(ast, env) if as_bool else cexpr.as_int(ast, env)
